@@ -32,7 +32,7 @@ def wasUnwatched (older : List Ev) (id : Nat) : Bool :=
   older.any fun | .unwatched i => i == id | _ => false
 
 def wasRepushed (older : List Ev) (id : Nat) : Bool :=
-  older.any fun | .repush i => i == id | _ => false
+  older.any fun | .repush i _ => i == id | _ => false
 
 def drainSeen (older : List Ev) : Bool := older.any fun | .drain => true | _ => false
 
@@ -102,19 +102,42 @@ def boundOk (cfg : Cfg) (older : List Ev) : Ev → Bool
 /-- Scheduling slack granted to the TTL watcher on the mock clock: one 100 ms tick. -/
 def slack : Nat := 100
 
-/-- (T) a request is rejected by time-out only after its TTL and at most `slack` later; no request
-is seen waiting beyond TTL + slack (shutdown excepted). -/
+/-- The processing loop is in the middle of an attempt on `id` (popped, not yet pushed back nor
+signalled): the TTL watcher cannot reject it until the attempt is over. -/
+def inAttempt : List Ev → Nat → Bool
+  | [], _ => false
+  | .pop i :: rest, id => if i == id then true else inAttempt rest id
+  | .repush i _ :: rest, id => if i == id then false else inAttempt rest id
+  | .done i _ _ :: rest, id => if i == id then false else inAttempt rest id
+  | _ :: rest, id => inAttempt rest id
+
+/-- The instant at which the most recent refused attempt on `id` ended. -/
+def lastRepush : List Ev → Nat → Option Nat
+  | [], _ => none
+  | .repush i t :: rest, id => if i == id then some t else lastRepush rest id
+  | _ :: rest, id => lastRepush rest id
+
+/-- No waiter (other than `me`, and other than one the loop is just attempting) is past TTL + slack at `t`. -/
+def noneOverdue (cfg : Cfg) (older : List Ev) (me : Option Nat) (t : Nat) : Bool :=
+  (waiting older).all fun (j, _, aj) => me == some j || inAttempt older j || decide (t ≤ aj + cfg.ttl + slack)
+
+/-- (T) a request is rejected by time-out only after its TTL and at most `slack` later — or at the
+very instant a refused attempt of the loop on it ended, if that was later —; no request is seen
+waiting beyond TTL + slack (shutdown excepted). -/
 def ttlOk (cfg : Cfg) (older : List Ev) : Ev → Bool
   | .done i false t =>
     drainSeen older ||
     (match infoOf older i with
      | none => true
-     | some (_, a) => decide (a + cfg.ttl < t) && decide (t ≤ a + cfg.ttl + slack)) &&
-    ((waiting older).all fun (j, _, aj) => j == i || decide (t ≤ aj + cfg.ttl + slack))
-  | .done i true t =>
-    drainSeen older || ((waiting older).all fun (j, _, aj) => j == i || decide (t ≤ aj + cfg.ttl + slack))
-  | .queued _ _ t => drainSeen older || ((waiting older).all fun (_, _, aj) => decide (t ≤ aj + cfg.ttl + slack))
+     | some (_, a) => decide (a + cfg.ttl < t) && (decide (t ≤ a + cfg.ttl + slack) || lastRepush older i == some t)) &&
+    noneOverdue cfg older (some i) t
+  | .done i true t => drainSeen older || noneOverdue cfg older (some i) t
+  | .queued _ _ t => drainSeen older || noneOverdue cfg older none t
   | _ => true
+
+/-- (T)/(V) at the end of the observation (instant `tEnd`, everything delivered so far is in the
+history `hRev`, most recent first): nobody is left waiting beyond TTL + slack. -/
+def endOk (cfg : Cfg) (hRev : List Ev) (tEnd : Nat) : Bool := drainSeen hRev || noneOverdue cfg hRev none tEnd
 
 /-- (D) shutdown never crashes ... -/
 def noPanic (_older : List Ev) : Ev → Bool
@@ -128,5 +151,47 @@ def drainReleases (hRev : List Ev) : Bool := !drainSeen hRev || (waiting hRev).i
 def holds (cfg : Cfg) (h : List Ev) : Bool :=
   scan verdictOk [] h && scan quotaOk [] h && scan (prioOk cfg) [] h && scan (ttlOk cfg) [] h &&
   scan (fifoOk cfg) [] h && scan (boundOk cfg) [] h && scan noPanic [] h && drainReleases h.reverse
+
+/-! ### The shared queue alone (level L1): every dequeue hands out a minimum -/
+
+inductive QEv
+  | enq (id prio : Nat)
+  | rm (id : Nat)
+  | deq (r : Option Nat)
+  | size (n : Nat)
+deriving Repr
+
+/-- Entries present after a history (most recent first): (id, priority, rank of its first enqueue
+since it was last removed).  `memo` lists (id, rank). -/
+structure QView where
+  present : List (Nat × Nat × Nat) := []
+  memo    : List (Nat × Nat) := []
+  next    : Nat := 0
+
+def QView.step (v : QView) : QEv → QView
+  | .enq id p =>
+    match v.memo.lookup id with
+    | some r => { v with present := (id, p, r) :: v.present, next := v.next + 1 }
+    | none => { present := (id, p, v.next) :: v.present, memo := (id, v.next) :: v.memo, next := v.next + 1 }
+  | .rm id => { v with present := v.present.eraseP (fun e => e.1 == id), memo := v.memo.filter fun e => e.1 != id }
+  | .deq (some id) => { v with present := v.present.eraseP (fun e => e.1 == id) }
+  | _ => v
+
+/-- `a` may be handed out before `b`: lower priority number, or equal and not enqueued later. -/
+def qle (a b : Nat × Nat × Nat) : Bool :=
+  if a.2.1 = b.2.1 then decide (a.2.2 ≤ b.2.2) else decide (a.2.1 < b.2.1)
+
+def qEvOk (v : QView) : QEv → Bool
+  | .deq none => v.present.isEmpty
+  | .deq (some id) => v.present.any fun e => e.1 == id && v.present.all fun o => qle e o
+  | .size n => n == v.present.length
+  | _ => true
+
+def qHoldsFrom (v : QView) : List QEv → Bool
+  | [] => true
+  | e :: rest => qEvOk v e && qHoldsFrom (v.step e) rest
+
+/-- The property of the shared queue on a history (oldest first). -/
+def qHolds (h : List QEv) : Bool := qHoldsFrom {} h
 
 end LunarVerif.C06
